@@ -238,16 +238,28 @@ class PlanJoinTablesQuery:
         # get conditions for tables
         binary_ops = []
 
-        def _check_node_condition(node, **kwargs):
+        def _check_node_condition(node):
+            # only the top-level conjuncts of WHERE restrict the result on their own:
+            # a comparison nested in an expression, under NOT or under OR does not
+            if isinstance(node, BinaryOperation) and node.op.lower() == 'and':
+                for arg in node.args:
+                    _check_node_condition(arg)
+                return
+
             if isinstance(node, BetweenOperation):
                 self.check_node_condition(node)
 
             if isinstance(node, BinaryOperation):
                 binary_ops.append(node.op)
 
+                if node.op.lower() == 'is' and self.query_context.get('has_outer_join'):
+                    # `col IS NULL` keeps the rows an outer join fills with NULLs: it can't be applied before the join
+                    return
+
                 self.check_node_condition(node)
 
-        query_traversal(query.where, _check_node_condition)
+        if query.where is not None:
+            _check_node_condition(query.where)
 
         self.query_context['binary_ops'] = binary_ops
 
@@ -311,6 +323,10 @@ class PlanJoinTablesQuery:
 
         query_traversal(query, _check_identifiers)
 
+        self.query_context['has_outer_join'] = any(
+            isinstance(item, Join) and ' '.join(item.join_type.upper().split()) not in ('JOIN', 'INNER JOIN', 'CROSS JOIN')
+            for item in join_sequence
+        )
         self.check_query_conditions(query)
 
         # workaround for 'model join table': swap tables:
